@@ -98,6 +98,21 @@ async fn issue(st: Arc<State>, call: Call) -> Vec<RespValue> {
         ("pooled", "set") => vec![st.pooled_fast_set(bytes(&s0.key), bytes(&s0.arg)).await],
         ("batch", "get") => st.fast_batch_get_pipeline(call.subs.iter().map(|s| bytes(&s.key)).collect()).await,
         ("batch", "set") => st.fast_batch_set_pipeline(call.subs.iter().map(|s| (bytes(&s.key), bytes(&s.arg))).collect()).await,
+        ("sha", kind) => {
+            // the script is loaded (idempotent) and then run by its digest
+            let (text, args): (&str, Vec<Vec<u8>>) = match kind {
+                "get" => ("return redis.call('GET', KEYS[1])", vec![]),
+                "set" => ("return redis.call('SET', KEYS[1], ARGV[1])", vec![b(&s0.arg)]),
+                _ => ("local v = redis.call('GET', KEYS[1]) if not v then v = 0 end local n = tonumber(v) + tonumber(ARGV[1]) redis.call('SET', KEYS[1], tostring(math.floor(n))) return math.floor(n)", vec![b(&s0.arg)]),
+            };
+            let sha = match exec(&st, vec![b("SCRIPT"), b("LOAD"), b(text)]).await {
+                RespValue::BulkString(Some(x)) => x,
+                other => return vec![other],
+            };
+            let mut argv = vec![b("EVALSHA"), sha, b("1"), b(&s0.key)];
+            argv.extend(args);
+            vec![exec(&st, argv).await]
+        }
         ("script", "get") => vec![exec(&st, vec![b("EVAL"), b("return redis.call('GET', KEYS[1])"), b("1"), b(&s0.key)]).await],
         ("script", "set") => vec![exec(&st, vec![b("EVAL"), b("return redis.call('SET', KEYS[1], ARGV[1])"), b("1"), b(&s0.key), b(&s0.arg)]).await],
         // read-modify-write in one script: must be atomic
@@ -266,7 +281,7 @@ fn random_call(rng: &mut impl Rng, regs: &[String], ctrs: &[String], serial: &At
         return match rng.gen_range(0..10) {
             0..=3 => {
                 let d = rng.gen_range(1..5);
-                Call { path: if rng.gen_bool(0.4) { "script" } else { "generic" }, subs: vec![Sub { key, kind: "incr", arg: d.to_string(), argn: d, num: true }] }
+                Call { path: ["script", "sha", "generic", "generic"][rng.gen_range(0..4)], subs: vec![Sub { key, kind: "incr", arg: d.to_string(), argn: d, num: true }] }
             }
             4..=5 => {
                 let n = rng.gen_range(0..100) * 10;
@@ -283,11 +298,11 @@ fn random_call(rng: &mut impl Rng, regs: &[String], ctrs: &[String], serial: &At
     let key = regs[rng.gen_range(0..regs.len())].clone();
     match rng.gen_range(0..20) {
         0..=6 => {
-            let path = ["generic", "fast", "pooled", "batch", "script"][rng.gen_range(0..5)];
+            let path = ["generic", "fast", "pooled", "batch", "script", "sha"][rng.gen_range(0..6)];
             Call { path, subs: vec![Sub { key, kind: "set", arg: fresh(()), argn: 0, num: false }] }
         }
         7..=13 => {
-            let path = ["generic", "fast", "pooled", "batch", "script"][rng.gen_range(0..5)];
+            let path = ["generic", "fast", "pooled", "batch", "script", "sha"][rng.gen_range(0..6)];
             Call { path, subs: vec![Sub { key, kind: "get", arg: String::new(), argn: 0, num: false }] }
         }
         14..=15 => Call { path: if rng.gen_bool(0.5) { "script" } else { "generic" }, subs: vec![Sub { key, kind: "getset", arg: fresh(()), argn: 0, num: false }] },
@@ -297,6 +312,15 @@ fn random_call(rng: &mut impl Rng, regs: &[String], ctrs: &[String], serial: &At
             let kind: &'static str = if rng.gen_bool(0.5) { "set" } else { "get" };
             let mut ks: Vec<String> = regs.to_vec();
             ks.truncate(rng.gen_range(2..=regs.len().max(2)).min(regs.len()));
+            // the same key more than once in one batch (a pipeline of GETs on a hot key)
+            if rng.gen_bool(0.4) {
+                let dup = ks[rng.gen_range(0..ks.len())].clone();
+                let at = rng.gen_range(0..=ks.len());
+                ks.insert(at, dup.clone());
+                if rng.gen_bool(0.3) {
+                    ks.push(dup);
+                }
+            }
             Call { path: "batch", subs: ks.into_iter().map(|k| Sub { key: k, kind, arg: if kind == "set" { fresh(()) } else { String::new() }, argn: 0, num: false }).collect() }
         }
     }
